@@ -150,9 +150,26 @@ type worker struct {
 	backend *httptest.Server
 	h       http.Handler
 	cur     struct {
-		cfg  config
-		body []byte
+		cfg   config
+		body  []byte
+		abort bool // the backend announces the whole body, sends the first half and drops the connection
 	}
+}
+
+// fault sends a request whose upstream response breaks off half-way; what the client gets for it is not checked
+// (an error status is fine), what later responses through the same handler look like is.
+func (w *worker) fault(cfg config, doc []byte) {
+	w.cur.cfg = cfg
+	w.cur.body = encode(cfg.enc, doc)
+	w.cur.abort = true
+	defer func() { w.cur.abort = false }()
+	req := httptest.NewRequest("GET", "/page", nil)
+	req.Header.Set("Accept-Encoding", "gzip, deflate, br, zstd")
+	rec := httptest.NewRecorder()
+	func() {
+		defer func() { recover() }() // the reverse proxy may abort the handler itself
+		w.h.ServeHTTP(rec, req)
+	}()
 }
 
 func newWorker() *worker {
@@ -174,6 +191,13 @@ func newWorker() *worker {
 			rw.Header().Set("templ-skip-modify", "true")
 		}
 		rw.Header().Set("Content-Length", strconv.Itoa(len(w.cur.body)))
+		if w.cur.abort {
+			rw.Write(w.cur.body[:len(w.cur.body)/2])
+			if f, ok := rw.(http.Flusher); ok {
+				f.Flush()
+			}
+			panic(http.ErrAbortHandler)
+		}
 		rw.Write(w.cur.body)
 	}))
 	u, _ := url.Parse(w.backend.URL)
@@ -532,8 +556,24 @@ func main() {
 				}
 			}
 		}
+		// fault histories: an upstream response that breaks off half-way (identity and gzip), then ordinary responses
+		// through the same handler: nothing of the broken one may show up in them
+		faults := 0
+		big := "<!DOCTYPE html><html><head><title>broken</title></head><body>" + strings.Repeat("<p>BROKEN-RESPONSE-MARKER paragraph</p>", 3000) + "</body></html>"
+		for _, e := range []string{"", "gzip", "br"} {
+			for _, d := range rep {
+				for _, broken := range []string{big, d.text + strings.Repeat("<!-- BROKEN -->", 50)} {
+					w.fault(config{e, "text/html", "", "", false, false, true}, []byte(broken))
+					faults++
+					for _, c := range []config{{e, "text/html", csps[2].csp, csps[2].nonce, false, false, true}, {"", "text/html; charset=utf-8", "", "", false, false, true}, {"gzip", "text/html", "", "", false, false, false}} {
+						w.check(c, d.name+" (after an upstream response that broke off half-way)", []byte(d.text))
+					}
+				}
+			}
+		}
 		w.backend.Close()
 		run.Cov["same_document_consecutive_responses"] = hist
+		run.Cov["broken_upstream_responses_followed_by_ordinary_ones"] = faults
 	}
 	var next atomic.Int64
 	var wg sync.WaitGroup
